@@ -38,7 +38,7 @@ NAMES = ['a', 'b', 'c', 'pkg_x', 'mod_y', '_p']
 def required_cells(tier):
     return ['resolve:found-module', 'resolve:found-package', 'resolve:absent', 'resolve:broken-chain',
             'resolve:module-and-package', 'roundtrip', 'split', 'import', 'resolve:main-file',
-            'import:failing-leaves-syspath', 'resolve:module-beside-plain-directory']
+            'import:failing-leaves-syspath', 'resolve:module-beside-plain-directory', 'import:root-already-on-syspath']
 
 
 def build(rng, root, uniq):
@@ -166,6 +166,13 @@ def check_tree(ctx, idx, seed):
             # ---- import by path
             if parts[-1] == '__main__':
                 continue
+            # sometimes the tree is already on sys.path (front / middle) when a module is imported by its path
+            original_path = list(sys.path)
+            where = rng.choice(['absent', 'absent', 'front', 'middle'])
+            if where == 'front':
+                sys.path.insert(0, root)
+            elif where == 'middle':
+                sys.path.insert(len(sys.path) // 2, root)
             before = monitors.ProcState()
             try:
                 mod = util_import.import_module_from_path(got)
@@ -174,7 +181,11 @@ def check_tree(ctx, idx, seed):
                 mod, err = None, ex
             after = monitors.ProcState()
             d = [x for x in before.diff(after) if x[0] == 'sys.path']
-            sys.path[:] = before.path
+            if not d and list(sys.path) != before.path:
+                d = [('sys.path', 'order changed', 'the same entries in another order')]
+            sys.path[:] = original_path
+            if where != 'absent' and not d:
+                ctx.cell('import:root-already-on-syspath')
             ctx.event('imports_monitored')
             raises = 'XV_IMPORT_FAILS' in open(got).read()
             if raises:
